@@ -4,36 +4,50 @@ moves and returns / keeps exactly the bytes it took). -/
 namespace Aio.C08
 open Aio
 
+theorem hx_quiet {s s' : S} (q : Quiet s s') (hx : s.recheck = true → s.exc = none) :
+    s'.recheck = true → s'.exc = none := by
+  intro h; rw [q.exc]; exact hx (by rw [← q.recheck]; exact h)
+
+theorem hx_frame {s s' : S} (q : Frame s s') (hx : s.recheck = true → s.exc = none) :
+    s'.recheck = true → s'.exc = none := by
+  intro h; rw [q.exc]; exact hx (by rw [← q.recheck]; exact h)
+
+theorem hx_setChunk {s : S} (n : Nat) (hx : s.recheck = true → s.exc = none) :
+    (setChunk s n).recheck = true → (setChunk s n).exc = none := by
+  unfold setChunk; split <;> exact hx
+
 theorem bufs_of_wait {s : S} (h : (s.bufs.isEmpty && !s.eof) = true) : s.bufs = [] := by
   simp at h; exact h.1
 
-theorem contRead_post {s : S} (hi : Inv s) (hp : s.parked = none) (n : Nat) (it : Bool) :
+theorem contRead_post {s : S} (hi : Inv s) (hp : s.parked = none) (hx : s.recheck = true → s.exc = none)
+    (n : Nat) (it : Bool) :
     Post s [] (contRead s n it) := by
   unfold contRead
   split
-  · rename_i h; exact post_park hp (bufs_of_wait h) ⟨.read n, [], it⟩ (fun _ => rfl)
+  · rename_i h; exact post_park hp (bufs_of_wait h) ⟨.read n, [], it⟩ (fun _ => rfl) hx
   · obtain ⟨d, hr, hd, -, -⟩ := readNowait_reach hi (some n)
     have hq := quiet_readNowait s (some n)
     have := post_data (acc := []) (by rw [hq.parked]; exact hp) hr
     simpa [hd] using this
 
-theorem contReadAny_post {s : S} (hi : Inv s) (hp : s.parked = none) (it : Bool) :
+theorem contReadAny_post {s : S} (hi : Inv s) (hp : s.parked = none) (hx : s.recheck = true → s.exc = none)
+    (it : Bool) :
     Post s [] (contReadAny s it) := by
   unfold contReadAny
   split
-  · rename_i h; exact post_park hp (bufs_of_wait h) ⟨.readAny, [], it⟩ (fun _ => rfl)
+  · rename_i h; exact post_park hp (bufs_of_wait h) ⟨.readAny, [], it⟩ (fun _ => rfl) hx
   · obtain ⟨d, hr, hd, -, -⟩ := readNowait_reach hi none
     have hq := quiet_readNowait s none
     have := post_data (acc := []) (by rw [hq.parked]; exact hp) hr
     simpa [hd] using this
 
 theorem contReadAll_post : ∀ (fuel : Nat) {s : S} (acc : Bytes) (it : Bool), Inv s → s.parked = none →
-    Post s acc (contReadAll fuel s acc it)
-  | 0, s, acc, it, _, hp => by simp only [contReadAll]; exact post_raise hp acc _
-  | fuel + 1, s, acc, it, hi, hp => by
+    (s.recheck = true → s.exc = none) → Post s acc (contReadAll fuel s acc it)
+  | 0, s, acc, it, _, hp, _ => by simp only [contReadAll]; exact post_raise hp acc _
+  | fuel + 1, s, acc, it, hi, hp, hx => by
     simp only [contReadAll]
     split
-    · rename_i h; exact post_park hp (bufs_of_wait h) ⟨.readAll, acc, it⟩ (fun h => by cases h)
+    · rename_i h; exact post_park hp (bufs_of_wait h) ⟨.readAll, acc, it⟩ (fun h => by cases h) hx
     · obtain ⟨d, hr, hd, -, -⟩ := readNowait_reach hi none
       have hq := quiet_readNowait s none
       have hp1 : (readNowait s none).1.parked = none := by rw [hq.parked]; exact hp
@@ -46,7 +60,7 @@ theorem contReadAll_post : ∀ (fuel : Nat) {s : S} (acc : Bytes) (it : Bool), I
       · rw [hd]
         split
         · exact post_of_reach hr (post_raise hp1 _ _)
-        · exact post_of_reach hr (contReadAll_post fuel (acc ++ d) it hi1 hp1)
+        · exact post_of_reach hr (contReadAll_post fuel (acc ++ d) it hi1 hp1 (hx_quiet hq hx))
 
 theorem untilInner_cons (fuel : Nat) {s : S} {b : Bytes} {t : List Bytes} (h : s.bufs = b :: t)
     (sep : Bytes) (m : Nat) (acc : Bytes) :
@@ -107,7 +121,8 @@ theorem untilInner_reach : ∀ (fuel : Nat) {s : S} (sep : Bytes) (m : Nat) (acc
               rw [htl, hb]; simp at hf ⊢; omega
             exact hfin this
 
-theorem contReadUntil_post {s : S} (hi : Inv s) (hp : s.parked = none) (sep : Bytes) (m : Nat)
+theorem contReadUntil_post {s : S} (hi : Inv s) (hp : s.parked = none) (hx : s.recheck = true → s.exc = none)
+    (sep : Bytes) (m : Nat)
     (acc : Bytes) (it : Bool) : Post s acc (contReadUntil s sep m acc it) := by
   obtain ⟨d, hr, hd, hq, hfin⟩ := untilInner_reach (s.bufs.length + 1) sep m acc hi
   have hp1 : (untilInner (s.bufs.length + 1) s sep m acc).1.parked = none := by rw [hq.parked]; exact hp
@@ -121,17 +136,17 @@ theorem contReadUntil_post {s : S} (hi : Inv s) (hp : s.parked = none) (sep : By
       · rw [hd]; exact post_data hp1 hr
       · rename_i h1 h2 h3
         have hb := hfin (by omega) (by simpa using h2) (by simpa using h1)
-        have := post_park hp1 hb ⟨.readUntil sep m, (untilInner (s.bufs.length + 1) s sep m acc).2.1, it⟩ (fun h => by cases h)
+        have := post_park hp1 hb ⟨.readUntil sep m, (untilInner (s.bufs.length + 1) s sep m acc).2.1, it⟩ (fun h => by cases h) (hx_quiet hq hx)
         rw [hd] at this ⊢
         exact post_of_reach hr this
 
 theorem contReadExactly_post : ∀ (fuel : Nat) {s : S} (n : Nat) (acc : Bytes), Inv s → s.parked = none →
-    Post s acc (contReadExactly fuel s n acc)
-  | 0, s, n, acc, _, hp => by simp only [contReadExactly]; exact post_raise hp acc _
-  | fuel + 1, s, n, acc, hi, hp => by
+    (s.recheck = true → s.exc = none) → Post s acc (contReadExactly fuel s n acc)
+  | 0, s, n, acc, _, hp, _ => by simp only [contReadExactly]; exact post_raise hp acc _
+  | fuel + 1, s, n, acc, hi, hp, hx => by
     simp only [contReadExactly]
     split
-    · rename_i h; exact post_park hp (bufs_of_wait h) ⟨.readExactly n, acc, false⟩ (fun h => by cases h)
+    · rename_i h; exact post_park hp (bufs_of_wait h) ⟨.readExactly n, acc, false⟩ (fun h => by cases h) hx
     · obtain ⟨d, hr, hd, -, -⟩ := readNowait_reach hi (some n)
       have hq := quiet_readNowait s (some n)
       have hp1 : (readNowait s (some n)).1.parked = none := by rw [hq.parked]; exact hp
@@ -149,7 +164,7 @@ theorem contReadExactly_post : ∀ (fuel : Nat) {s : S} (n : Nat) (acc : Bytes),
           · have hm := Move.setChunk (readNowait s (some n)).1 (n - d.length)
             have hp2 : (setChunk (readNowait s (some n)).1 (n - d.length)).parked = none := by
               unfold setChunk; split <;> exact hp1
-            have := contReadExactly_post fuel (n - d.length) (acc ++ d) (move_inv hi1 hm) hp2
+            have := contReadExactly_post fuel (n - d.length) (acc ++ d) (move_inv hi1 hm) hp2 (hx_setChunk _ (hx_quiet hq hx))
             have h2 := post_of_reach (acc := acc ++ d) (Reach.one hm) (by simpa using this)
             exact post_of_reach hr h2
 
@@ -186,6 +201,8 @@ theorem contReadChunk_post {s : S} (hi : Inv s) (hp : s.parked = none) (it : Boo
   split
   · exact post_raise hp _ _
   · -- the splits loop
+    rename_i hexc
+    have hx : s.recheck = true → s.exc = none := fun _ => hexc
     have key : ∀ (s1 : S) (r : Option Out) (d : Bytes), Reach s s1 d → s1.parked = none →
         (r = none → d = []) → (∀ o, r = some o → o = .chunk d true) →
         Post s [] (match r with
@@ -216,7 +233,7 @@ theorem contReadChunk_post {s : S} (hi : Inv s) (hp : s.parked = none) (it : Boo
           · exact ⟨⟨[], hr, by intro _; simp [outBytes, pendAcc, hp1]⟩, by intro _; exact hp1, (by intro h; cases h), accok_of_none hp1⟩
           · rename_i hb _
             have hb' : s1.bufs = [] := by simpa using hb
-            exact post_of_reach hr (by simpa using post_park hp1 hb' ⟨.readChunk, [], it⟩ (fun _ => rfl))
+            exact post_of_reach hr (by simpa using post_park hp1 hb' ⟨.readChunk, [], it⟩ (fun _ => rfl) (hx_frame (reach_frame hr) hx))
     cases hs : s.splits with
     | none =>
       simp only []
